@@ -11,6 +11,7 @@ BIN = _m.BIN
 RUNMOD = _m.RUNMOD
 FEATURES = getattr(_m, "FEATURES", None)
 FNS = ['div_rem', 'div_ceil', 'checked_next_multiple_of', 'next_multiple_of']
+NO_ADAPT = True       # the owning property's check widens its own search when its sources change
 BUDGET = 1500          # generated cases kept per run (the owning property runs them all)
 
 
